@@ -493,4 +493,24 @@ example (T : Nat) (eb : DEnvB 0) (rs : DRestruct 0) :
   refine ⟨s', he, hp, ?_, hg ⟨1, 2⟩ (by decide) (by decide), hg ⟨1, 3⟩ (by decide) (by decide), hr⟩
   rw [hc]; rfl
 
+/-- `Ob_MapSlab_PopIterate_heap_notFound`: the heap holds child 1 only; child 1 is popped and removed, then child 0 is
+    not found: the error, the receiver unchanged -/
+example (T : Nat) (eb : DEnvB 0) (rs : DRestruct 0) :
+    let s : MHSt 0 := { heap := fun id => if id = ⟨1, 3⟩ then some (md_tree 0 mdp_exB none) else none, ctx := ⟨7, [], []⟩ }
+    ∃ s' : MHSt 0,
+      MapSlab_PopIterate (envD T eb rs) (MapMetaDataSlab_PopIterate (envD T eb rs) 1) (md_tree 1 mdp_exM mdp_exX) s =
+        some (some .slabNotFound, md_tree 1 mdp_exM mdp_exX, s') ∧
+      s'.popped = [(mdp_exKB, default)] ∧ s'.ctx.eff = [.remove ⟨1, 3⟩] ∧ s'.heap ⟨1, 3⟩ = none := by
+  intro s
+  refine ⟨_, Ob_MapSlab_PopIterate_heap_notFound T eb rs 1 0 (Nat.le_refl _) mdp_exM mdp_exX s rfl 0 (by decide) rfl
+    ?_ (by decide) ?_, rfl, rfl, rfl⟩
+  · intro c hc
+    rcases List.mem_cons.mp hc with rfl | hc
+    · exact (rfl : s.heap ⟨1, 3⟩ = _)
+    · cases hc
+  · intro c hc
+    rcases List.mem_cons.mp hc with rfl | hc
+    · exact ⟨trivial, rfl, trivial⟩
+    · cases hc
+
 end Atree.TransEq
